@@ -5,11 +5,11 @@ from harness import clientsim as cs
 from harness.clientsim import TAGS
 
 PROP = "C06"
-GEN = ["Wrappers"]
+GEN = ["Wrappers", "Handlers"]
 VO = ["Properties/C06.vo", "Extract/D_Client.vo", "Extract/O_C06.vo"]
 MODULE = "Properties.C06"
 THEOREMS = ["c06_invariant", "c06_sequences", "c06_inv_meaning", "c06_failure_closes_fetch", "c06_failure_closes_store",
-            "c06_failure_closes_misc", "c06_connect", "c06_fallback_skip", "c06_fallback_success", "c06_stack_timeouts"]
+            "c06_failure_closes_misc", "c06_connect", "c06_fallback_skip", "c06_fallback_success", "c06_stack_timeouts", "c06_src_handlers"]
 DRIVER = "D_Client"
 ORACLE = "O_C06"
 TECHNIQUE = ("Coq proof in a Hoare logic over the Client model: a lifecycle monitor automaton (one open socket, timeout and "
@@ -71,6 +71,16 @@ def cases(ctx):
                 for ch in ((TAGS["ConnectionResetError"],), (TAGS["SocketTimeout"],), None):
                     choices = [3] * rpos + [ch]
                     out.append((c, ops, [], choices, replies))
+            # "whatever failures occur while ... sending or receiving": also failures that are not ordinary errors (an interruption, a
+            # gevent-style timeout), once the connection is up: at the sendall of the first op and at its first recvs
+            dry = cs.run_impl(c, ops, [], [], replies)
+            sends = [i for i, e in enumerate([e for e in dry[1] if e[0] != 8]) if e[0] == 7]
+            for fk in ("KeyboardInterrupt", "GreenletTimeout"):
+                if sends:
+                    out.append((c, ops, [0] * sends[0] + [(TAGS[fk],)], [], replies))
+                if rep:
+                    for rpos in range(0, 2):
+                        out.append((c, ops, [], [3] * rpos + [(TAGS[fk],)], replies))
             # fallback: socket() fails for the first j addresses
             if c.get("tcp") and c.get("naddr", 1) >= 2:
                 for j in range(1, c["naddr"] + 1):
